@@ -84,6 +84,13 @@ CHECKS.update({
             "note": "Trusted base: kernel, fake serial/socket/select, SimLoop and the asyncio transport stubs (documented callback contract). Timing bounds carry +-5% + 60 ms slack; the asyncio watchdog bound is 3 rt + 0.5 (it looks once per rt + 0.1 s). Transport.disconnect() outside stop() is observed as a probe only."},
 })
 
+CHECKS.update({
+    "C15": {"category": "exploration", "design_ref": "DESIGN.md 5/C15",
+            "technique": "deterministic simulation with fault injection: transient I/O faults at drawn operations of drawn scheduled saves on SimFS plus seeded line-granular pre-emption of the saving thread against the pump/loop; bounded-liveness oracle on the simulated clock",
+            "text": "Real Timer chain (threaded) and save task + executor thread (asyncio) on the simulated clock with transient EIO/ENOSPC/EACCES at drawn file operations and traffic injected at the instant a save starts under pre-emptive schedules; checks that the schedule survives, the old file stays loadable, the dirty flag is kept, and that 25 simulated seconds after faults stop the disk equals the current state.",
+            "note": "Trusted base: kernel, SimTimer, SimLoop/executor threads, SimFS. Save calls are observed through a class-level wrapper of Persistence.save_sensors installed by the harness (no repo change). Pre-emption granularity: Python lines in mysensors/* and json/encoder.py; the C pickler is atomic between __getstate__ calls."},
+})
+
 NOT_APPLICABLE = {
     "C02": "pure function of its arguments (Message.decode/encode/copy): no schedule, clock, I/O, fault or history can change the result, so deterministic simulation has nothing to decide (DESIGN.md section 6)",
     "C03": "acceptance is a pure function of (version, line); an exhaustive header x payload-class product is table enumeration, not a search over schedules or faults (DESIGN.md section 6)",
